@@ -4,7 +4,7 @@ import HcipyVerif.Model.NearField
 /-! Line-protocol front end of the C04 model (near-field propagator bookkeeping).
 
 ```
-C04 setup fresnel|angular nx ny dx dy lam z n q s
+C04 setup fresnel|angular nx ny dx dy lam z n q s        (q, s: a scalar or a per-axis pair [x,y])
    -> ok M=[mx,my] cut=y0:y1:x0:x1|none branch=ir|tf slack=… regime=0|1 noevan=0|1 minrad=… nudelta=[…] nuzero=[…]
 C04 set distance|refractive_index|num_oversampling|zero_padding|wavelength v   -> ok   (a setter on the same object)
 C04 info          -> the setup line for the parameters now in force
@@ -30,6 +30,21 @@ def showCut : Option (Nat × Nat × Nat × Nat) → String
   | none => "none"
   | some (a, b, c, d) => s!"{a}:{b}:{c}:{d}"
 
+/-- `a` (broadcast to both axes) or `[a,b]`. -/
+def parseRat2? (s : String) : Option (Rat × Rat) :=
+  match parseRat? s with
+  | some a => some (a, a)
+  | none => match parseRatList? s with
+    | some [a, b] => some (a, b)
+    | _ => none
+
+def parseNat2? (s : String) : Option (Nat × Nat) :=
+  match parseNat? s with
+  | some a => some (a, a)
+  | none => match parseNatList? s with
+    | some [a, b] => some (a, b)
+    | _ => none
+
 def info (p : Params) : String :=
   let nd := [nuDelta p.dx (mx p), nuDelta p.dy (my p)]
   let nz := [nu p.dx (mx p) 0 0, nu p.dy (my p) 0 0]
@@ -41,8 +56,8 @@ def parseSetter? (name val : String) : Option Setter :=
   match name with
   | "distance" => (parseRat? val).map .distance
   | "refractive_index" => (parseRat? val).bind fun n => if n ≤ 0 then none else some (.refractiveIndex n)
-  | "num_oversampling" => (parseNat? val).bind fun s => if s = 0 then none else some (.oversampling s)
-  | "zero_padding" => (parseRat? val).bind fun q => if q < 1 then none else some (.zeroPadding q)
+  | "num_oversampling" => (parseNat2? val).bind fun s => if s.1 = 0 || s.2 = 0 then none else some (.oversampling s.1 s.2)
+  | "zero_padding" => (parseRat2? val).bind fun q => if q.1 < 1 || q.2 < 1 then none else some (.zeroPadding q.1 q.2)
   | "wavelength" => (parseRat? val).bind fun l => if l ≤ 0 then none else some (.wavelength l)
   | _ => none
 
@@ -50,10 +65,10 @@ def step (st : St) : List String → St × String
   | ["reset"] => ({}, "ok")
   | ["setup", kind, nx, ny, dx, dy, lam, z, n, q, s] =>
     match parseKind? kind, parseNat? nx, parseNat? ny, parseRat? dx, parseRat? dy, parseRat? lam,
-          parseRat? z, parseRat? n, parseRat? q, parseNat? s with
+          parseRat? z, parseRat? n, parseRat2? q, parseNat2? s with
     | some kind, some nx, some ny, some dx, some dy, some lam, some z, some n, some q, some s =>
-      if nx = 0 || ny = 0 || dx ≤ 0 || dy ≤ 0 || lam ≤ 0 || n ≤ 0 || q < 1 || s = 0 then (st, "err value") else
-      let p : Params := { kind := kind, nx := nx, ny := ny, dx := dx, dy := dy, lam := lam, z := z, n := n, q := q, s := s }
+      if nx = 0 || ny = 0 || dx ≤ 0 || dy ≤ 0 || lam ≤ 0 || n ≤ 0 || q.1 < 1 || q.2 < 1 || s.1 = 0 || s.2 = 0 then (st, "err value") else
+      let p : Params := { kind := kind, nx := nx, ny := ny, dx := dx, dy := dy, lam := lam, z := z, n := n, qx := q.1, qy := q.2, sx := s.1, sy := s.2 }
       ({ p := some p }, info p)
     | _, _, _, _, _, _, _, _, _, _ => (st, "bad-op")
   | ["set", name, val] =>
